@@ -752,6 +752,10 @@ func (m *connectUnaryMarshaler) Marshal(message any) *Error {
 	uncompressed := bytes.NewBuffer(data)
 	defer m.bufferPool.Put(uncompressed)
 	if len(data) < m.compressMinBytes || m.compressionPool == nil {
+		// The payload goes out uncompressed, so the headers must not say
+		// otherwise: the header map may still name the encoding of a larger
+		// message sent earlier with the same Request.
+		m.header.Del(connectUnaryHeaderCompression)
 		return m.write(data)
 	}
 	compressed := m.bufferPool.Get()
